@@ -146,6 +146,22 @@ KINDS_EXTRA = ["const", "const", "const", "gauss", "loguniform", "shared"]
 # class labels (computed from the case alone) of the recorded genuine defects
 CLASS_SENS_ORDER = "sens-prior-id-order!=path-order"
 CLASS_SENS_CENTRES = "sens-perturbed-centres-with-limits"
+CLASS_LABELS = "grid-cell-folder-labels-collide"
+
+
+def labels_collide(c):
+    """two cells of a grid dimension get the same folder label `<name>_<lower:.2f>_<upper:.2f>` (computed with the
+    code's own float formulas from the case alone)"""
+    n = c["n"]
+    step = 1 / n
+    for nm, lo, hi in c["priors"]:
+        if nm in c["grid"]:
+            lo, hi = unhex(lo), unhex(hi)
+            w = hi - lo
+            labs = {"%.2f_%.2f" % (lo + (step * v) * w, lo + ((step * v) + step) * w) for v in range(n)}
+            if len(labs) < n:
+                return True
+    return False
 
 
 def gen_extras(rng, names):
@@ -357,9 +373,10 @@ def oracle_fit(c, r):
         exp_cell.append(cell)
         exp_ll.append(-sum(((dg[nm] + 0.5) / n) / (n + 1) ** j for j, nm in enumerate(alpha)))
     fails = []
+    classes = [CLASS_LABELS] if labels_collide(c) else []
 
     def bad(msg):
-        fails.append((msg, []))
+        fails.append((msg, classes))
 
     def cell_is(got, idx, what):
         for nm in dims:
@@ -388,6 +405,9 @@ def oracle_fit(c, r):
         bad("log_likelihoods().native has shape %s" % r["native_shape"])
     for nm in dims:
         vals = r["attribute_grid"][nm]
+        if vals is None:
+            bad("attribute_grid(%s.centre) raises AttributeError: a cell has no instance" % nm)
+            continue
         for idx in range(tot):
             lo_, hi_, w = exp_cell[idx][nm]
             if not close(unhex(vals[idx]), (lo_ + hi_) / 2, w):
@@ -454,8 +474,8 @@ def oracle_fit(c, r):
                     stop = True
                     break
             llc = hdr.index("log_likelihood_increase")
-            if not stop and abs(unhex(row[llc]) - exp_ll[idx]) > 1e-9:
-                bad("results.csv row %d carries the likelihood %r, cell %d has %r" % (idx, unhex(row[llc]), idx, exp_ll[idx]))
+            if not stop and (row[llc] is None or abs(unhex(row[llc]) - exp_ll[idx]) > 1e-9):
+                bad("results.csv row %d carries the likelihood %r, cell %d has %r" % (idx, row[llc] and unhex(row[llc]), idx, exp_ll[idx]))
                 stop = True
             if stop:
                 break
@@ -913,12 +933,15 @@ def run(ctx):
         if c["kind"] == "sens_run":
             ctx.hist("sens_run.created_in_path_order", not sens_classes(c))
             ctx.hist("sens_run.limit_scale", str(c["limit_scale"]))
+        if c["kind"] == "fit":
+            ctx.hist("fit.folder_labels_collide", labels_collide(c))
         if c["kind"] in ("fit", "mappers"):
             ctx.hist("%s.extras" % c["kind"], ",".join(sorted({v.split(":")[0] for e in c["extras"].values() for v in e.values()})) or "const")
         ctx.oracle["cases"] += 1
         if "exc" in r:
             ctx.oracle["failures"] += 1
-            ctx.failure("oracle", "implementation raised %s: %s" % (r["exc"], r.get("msg")), c, impl=r)
+            ctx.failure("oracle", "implementation raised %s: %s" % (r["exc"], r.get("msg")), c, impl=r,
+                        classes=[CLASS_LABELS] if c["kind"] == "fit" and labels_collide(c) else [])
             continue
         fails = oracle_all(c, r["ok"])
         if fails:
@@ -948,12 +971,21 @@ def run(ctx):
 
 
 MANIFEST = {
-    "text": "Coq 8.16 theorems over leaf formulas regenerated from /repo by a fail-closed translator (n^d cells, row-major order, exact "
-            "tiling of [lo,hi] by contiguous disjoint cells, results keyed by job number for every completion order, sensitivity counts "
-            "and sorting, shape under a 1/2-accurate root, binary64 count on 1..131072 by a kernel-checked sweep) plus bit-exact vm_compute "
-            "correspondence of the model with the running code and a direct property oracle on every generated case",
+    "text": "Coq 8.16 theorems over leaf formulas regenerated from /repo by a fail-closed translator (n^d cells; the k-th job IS the "
+            "base-n / mixed-radix multi-index of k; job k's cell is the digit-wise 1-D cell; exact tiling of [lo,hi] by contiguous "
+            "disjoint cells; reported limits/centres are those of the cell fitted; results keyed by job number for every completion "
+            "order incl. re-delivery (latest wins) and paths pairing; sensitivity counts, positional sorting, unit cells for "
+            "limit_scale = 1 equal to the grid-search cells and bounded for every limit_scale >= 0; shape under a 1/2-accurate root; "
+            "binary64 count on 1..131072 by a kernel-checked sweep) plus bit-exact vm_compute correspondence of the model with the "
+            "running code and a direct property oracle on every generated case, where the likelihood of every fit is a function of "
+            "its cell so that every per-cell list (samples, log_likelihoods, native, log_evidences, attribute_grid, builder results "
+            "and paths, csv columns by header, sensitivity base/perturbed samples, folder labels) is tied to cell k",
     "note": "Trusted: Coq kernel + vm_compute, primitive floats, the translator pyexpr2coq.py, the correspondence harness; libm pow is an "
-            "oracle; tiling is proved over exact rationals (binary64 cells are compared bit-for-bit by correspondence only); completion "
-            "orders are steered through a permuting process class, not through real OS scheduling.",
+            "oracle (binary64 shape swept by the harness on d<=6, n^d<=1e6); tiling is proved over exact rationals (binary64 cells are "
+            "compared bit-for-bit by correspondence only); UniformPrior.value_for is modelled as lo+u*(hi-lo) without its 14-decimal "
+            "rounding; the order of the grid dimensions is the library's sort_priors_alphabetically (taken as given); 'other parameters "
+            "keep their priors' is checked by the oracle only (object identity, sharing structure), not modelled in Coq; completion orders "
+            "are steered through a permuting job runner, the real process pool runs in two thorough-tier cases only. Three genuine "
+            "defects of the unchanged tree are recorded as known findings with proposed fixes.",
     "technique": "machine-checked proof in Coq (translator-regenerated model) + vm_compute correspondence",
 }
